@@ -85,6 +85,10 @@ func (b *Built) build(e *Expr, h *Hooks) parsley.Parser {
 			p = fn(combinator.Any(ks...))
 		case OpChoice:
 			p = fn(combinator.Choice(ks...))
+		case OpRTrim:
+			p = text.RightTrim(ks[0], text.WsMode(e.C))
+		case OpLTrim:
+			p = text.LeftTrim(ks[0], text.WsMode(e.C))
 		case OpOpt:
 			p = combinator.Optional(ks[0])
 		case OpMany:
